@@ -45,7 +45,8 @@ violation from being established.
 R1  to_sql is pure.  Effects: every attribute of `self` mutated in code reachable from `to_sql` is
     re-initialised before its first mutation in that call - a reset (or a call of a helper that always resets)
     dominates the mutation, or the mutation sits in a helper every call site of which is covered in the same sense
-    (interprocedural).  One named exception: Filter._normalize rewrites str attributes to one-element lists under
+    (interprocedural; a to_sql that writes nothing at all to the query object - conditions kept in locals or in a helper
+    object made in the call - has nothing to re-initialise and is left to the evaluation).  One named exception: Filter._normalize rewrites str attributes to one-element lists under
     an isinstance(..., str) guard.  By evaluation: each query class's to_sql run twice on the same object gives the
     same statement and parameters, and the parameter list handed out by one call is not changed by a later call
     made after a setting was changed (queries run lazily).
@@ -57,7 +58,8 @@ R3  placeholders = parameters.  Symbolic count on the expanded view (see above) 
     the WHERE text is joined from, and the flatten step by abstract evaluation.  Parameters handed out by a helper,
     method or property of the repository are counted in its return(s) (all agreeing; a list grown by unconditional
     append / extend counts its pieces; a comprehension counts the collection it iterates; astuple(x) the fields of
-    x's class; a module-level table its rows; an integer parameter of a text helper - `placeholders(n)` - is the
+    x's class; a module-level table its rows; a str parameter that the function re-binds in terms of itself -
+    `table = f'{table}.' if table is not None else ''` - carries no placeholder when no re-binding adds one; an integer parameter of a text helper - `placeholders(n)` - is the
     count its caller passes, in whatever module the helper lives).  Condition builders are the Filter methods and the
     module-level functions of the filter module reached from to_sql that return lists of pairs, and those returning
     one pair (or None) whose result is put into a list of conditions; each must reach the list the WHERE text is
@@ -66,7 +68,7 @@ R3  placeholders = parameters.  Symbolic count on the expanded view (see above) 
     as a one-element group) and min_<c> / max_<c> goes with `<c> >= ?` / `<c> <= ?`: a builder that receives value and
     text as arguments is read once per call with the caller's arguments in the parameters' places.  The flatten step
     may iterate each pair's parameters when every pair holds a list; when some pair holds the bare value it must wrap
-    first.  Query level: per block, the placeholders appended to _conditions = the parameters pushed onto _params; the
+    first.  Query level (every method of the query module reachable from a query class's to_sql): per block, the placeholders appended to _conditions = the parameters pushed onto _params; the
     text and parameters Filter.to_sql returned (unpacked, read by index or by field) count as one matching group;
     what cannot be followed is decided by R6.  By evaluation: Filter.to_sql is run
     by the checker's interpreter on a table of filters (every attribute alone with ordinary and zero values, single
@@ -100,9 +102,17 @@ R7  is-set tests of optional numerics (`int | None`, `float | None` fields of Fi
     unchanged in value (whatever helper, method, property, astuple() or loop carries it there); no legal box is
     refused.  The four numbers are traced values: when a parameter differs, the expression that computed something
     from the bound (arithmetic, comparison, truth test, rounding, min/max, math.*) is named with its function.
-R8  each query iterates a cursor created in the call that runs it; SQL and parameters come from one to_sql() call;
-    what _yield_results yields is <result type>.from_row(row) for every row of <cursor>.execute(<sql>, <params>)
-    (for loop with or without locals, `yield from` / returned generator or list comprehension).
+R8  each query iterates a cursor created in the call that runs it: the receiver of every `.execute(...)` in the code
+    of the database module reachable from Database.__call__ is followed (locals, `with closing(..) as c`, parameters
+    through every call site) to `<connection>.cursor()` - or is the connection itself, whose execute() makes a cursor
+    per statement; an attribute of the Database object bound once to `<connection>.cursor()` is one cursor shared by
+    every query (a second query replaces the result set an unfinished one is reading).  SQL and parameters of the
+    execute are the two results of one to_sql() call of the query (through locals, indices, parameters).  What
+    Database.__call__ hands out is followed per query class as a stream (generator functions with one unguarded
+    `for .. yield`, `yield from`, comprehensions, helper methods of the database and of the query class, a function
+    kept as class attribute, `if <class attribute> is (not) None` decided per class): <RESULT_TYPE>.from_row(row) for
+    every row of the execute, in order; the first column of the first row (next(rows)[0], list(rows)[0][0],
+    rows.fetchone()[0]) for the query whose result type is a plain number.
 """
 
 from __future__ import annotations
@@ -258,7 +268,16 @@ def rule_pure(ctx):
                 ctx.ob('C14-R1', f, f'{cls.name}.to_sql: self.{attr} {how} at `{norm(st)[:50]}`', ok, why,
                        line=st.lineno)
         if cls.name != 'Filter':
-            ctx.floor(f'C14-R1/{cls.name}', found, 2, f'mutations reachable from {cls.name}.to_sql')
+            writes = [norm(st)[:50] for f in reach for t, st, how in stores_to(f.node)
+                      if any(isinstance(x, ast.Name) and x.id == 'self' for x in ast.walk(t))]
+            if found == 0 and not writes and not resets:
+                # the conditions are collected in values local to the call (a list, a helper object made afresh):
+                # nothing of the query object is written, so there is nothing a second call could see
+                ctx.ob('C14-R1', ts, f'{cls.name}.to_sql writes nothing to the query object', True,
+                       f'no store to / mutating call on an attribute of self in the {len(reach)} methods reachable from to_sql; '
+                       'the run-twice evaluation (R1 by evaluation) decides the rest', nontrivial=False)
+            else:
+                ctx.floor(f'C14-R1/{cls.name}', found, 2, f'mutations reachable from {cls.name}.to_sql')
 
 
 # ------------------------------------------------------ expanded view -----
@@ -1321,7 +1340,9 @@ class _Count:
                 return False
             if not (isinstance(d, ast.AugAssign) or norm(getattr(d, 'target', None) or d.targets[0]) == name):
                 return False
-            c = self.q(fi, v, env, depth + 1)
+            # (inductive: the parameter carries none, so a re-binding written in terms of the parameter itself -
+            # `table = f'{table}.' if table is not None else ''` - adds none when the rest of it adds none)
+            c = self.q(fi, v, {**env, name: Counter()}, depth + 1)
             if c is None or +c:
                 return False
         return True
@@ -1359,6 +1380,9 @@ class _Count:
         if isinstance(e, ast.Name):
             if e.id in env:
                 return env[e.id]
+            if e.id in fi.params and local_defs(fi.node, e.id):
+                # a parameter that the function re-binds: every value it may hold (the caller's, each re-binding)
+                return Counter() if self._param_ok(fi, e.id, env, depth) else None
             r = _resolve(fi, e)
             if r is not e:
                 return self.q(fi, r, env, depth + 1)
@@ -2185,8 +2209,16 @@ def rule_placeholders(ctx):
     qcnt = _Count(prog)
     qm = prog.module(Q)
     pending = []
-    for qn in ('QueryBase._common_conditions', 'Query.to_sql'):
-        fq = _view(prog, qm.func(qn))       # expanded and constant-folded: the text is what the database sees
+    # (the methods of the query module reachable from the to_sql of a query class, whatever they are called)
+    qfns = {}
+    for qc_ in prog.subclasses_of('QueryBase'):
+        t_ = qc_.find_method('to_sql')
+        for f_ in closure(prog, [t_]) if t_ is not None else []:
+            if f_.module is qm and f_.cls is not None and '.<locals>.' not in f_.qualname:
+                qfns.setdefault(f_.qualname, f_)
+    nblocks = 0
+    for qn in sorted(qfns):
+        fq = _view(prog, qfns[qn])       # expanded and constant-folded: the text is what the database sees
         blocks = {}
         for x in walk_no_nested(fq.node):
             if isinstance(x, ast.Expr) and isinstance(x.value, ast.Call):
@@ -2195,6 +2227,7 @@ def rule_placeholders(ctx):
                     blocks.setdefault(id(getattr(x, '_parent', None)), []).append(x)
             if isinstance(x, ast.AugAssign) and norm(x.target) == 'self._params':
                 blocks.setdefault(id(getattr(x, '_parent', None)), []).append(x)
+        nblocks += len(blocks)
         for blk in blocks.values():
             q = Counter()
             p = Counter()
@@ -2243,6 +2276,11 @@ def rule_placeholders(ctx):
                    (f'{dict(+q)} placeholders but {dict(+p)} parameters pushed in the same block: the condition list and the '
                     'parameter list are built in parallel, so a condition whose text is appended elsewhere binds the values of '
                     'its neighbours (e.g. the sample fraction to the day modulus)'), line=blk[0].lineno)
+    if not nblocks:
+        # the queries do not keep parallel lists of texts and parameters on the object (a local list of pairs, a helper
+        # object that takes a condition together with its parameters): nothing to count block by block here
+        ctx.note('C14-R3 query level: no parallel self._conditions / self._params lists; each condition with its own parameters is '
+                 'decided by the evaluated statements (C14-R6)')
     for fq, what in pending:
         # not countable symbolically (text or parameters reach the lists through something the counter does not follow):
         # the evaluated statements of R6 ("each condition with its own parameters") decide these blocks
@@ -2848,6 +2886,16 @@ def _c14_interp(prog):
             if isinstance(e.func, ast.Name) and e.func.id == 'cast' and len(e.args) == 2 and plain \
                     and imports.get('cast') == 'typing.cast':
                 return self.eval(e.args[1], fi, sc)
+            if isinstance(e.func, ast.Name) and e.func.id == 'len' and len(e.args) == 1 and plain and not any('len' in s_ for s_ in sc) \
+                    and not self.binds(fi.module, 'len'):
+                # len() of an instance of a repository class that defines __len__ is what that method returns
+                v = self.eval(e.args[0], fi, sc)
+                if isinstance(v, _Rec) and v.ci is not None and not _is_enum(v.ci) and self._method_node(v.ci, '__len__')[1] is not None:
+                    r = self.call_value(self.bound_method(v, v.ci, '__len__'), [], {}, e, fi, sc)
+                    if isinstance(r, int) and not isinstance(r, bool) and r >= 0:
+                        return r
+                    raise _Raised(TypeError('__len__() should return an integer >= 0'))
+                return self.guard(len, [v])
             if nm.split('.')[-1] in MATH_FUNCS and plain and not any(nm.split('.')[0] in s_ for s_ in sc) and \
                     imports.get(nm.split('.')[0]) in ('math', 'math.' + nm):
                 args = [self.eval(a, fi, sc) for a in e.args]
@@ -3488,7 +3536,7 @@ def rule_queries_evaluated(ctx):
     ctx.floor('C14-R4/evaluated-count', counts['CountQuery'] + counts['FrequentFlightQuery'], 30, 'CountQuery / FrequentFlightQuery settings evaluated')
     for (rule, construct), (ok, why, fi) in found.items():
         ctx.ob(rule, fi, construct, ok, why)
-    ctx.ob('C14-R1', qm.func('QueryBase._common_conditions'), 'the parameter list handed out by to_sql() is not changed by a later to_sql()', not stale,
+    ctx.ob('C14-R1', qs, 'the parameter list handed out by to_sql() is not changed by a later to_sql()', not stale,
            'every call builds its own list' if not stale else
            f'{stale[0][0]}({show(stale[0][1])}): the list returned by the first to_sql() is emptied / refilled in place by the second - a result '
            'generator that has not started yet (queries run lazily) then executes the first statement with the second parameters')
@@ -3720,6 +3768,341 @@ def rule_is_set(ctx):
     ctx.floor('C14-R7', n, 6, 'is-set tests of optional numeric fields')
 
 
+def _with_value(d, name):
+    """the context expression bound to `name` by the with statement d, or None"""
+    for it in getattr(d, 'items', []):
+        if it.optional_vars is not None and name in assigned_names(it.optional_vars):
+            return it.context_expr
+    return None
+
+
+def _call_sites(prog, fns, callee):
+    """[(caller, call)] of the calls of `callee` in the functions fns"""
+    return [(g, c) for g in fns for c in calls_in(g.node) if resolve_call(prog, g, c) is callee]
+
+
+def _argument_of(callee, c, param):
+    """the expression the call c passes for the parameter `param` of callee (positional or keyword), or None"""
+    ps = list(callee.params)
+    if callee.cls is not None and ps[:1] in (['self'], ['cls']) and isinstance(c.func, ast.Attribute) \
+            and not any(norm(d) == 'staticmethod' for d in callee.node.decorator_list):
+        ps = ps[1:]
+    elif ps[:1] == ['cls'] and any(norm(d) == 'classmethod' for d in callee.node.decorator_list):
+        ps = ps[1:]
+    if any(isinstance(x, ast.Starred) for x in c.args) or any(k.arg is None for k in c.keywords):
+        return None
+    for k in c.keywords:
+        if k.arg == param:
+            return k.value
+    if param in ps and ps.index(param) < len(c.args):
+        return c.args[ps.index(param)]
+    return None
+
+
+def _enclosing(f):
+    """the function a nested function is defined in, or None"""
+    if '.<locals>.' not in f.qualname:
+        return None
+    return f.module.functions.get(f.qualname.rsplit('.<locals>.', 1)[0])
+
+
+class _Cursors:
+    """where the receiver of an `.execute(...)` comes from, in the code reachable from Database.__call__:
+    'fresh'  - a cursor made for this call: `<connection>.cursor()` (inline, through locals, `with closing(..) as c`,
+               through a parameter every call site of which passes a fresh one), or the connection itself
+               (sqlite3's Connection.execute makes a cursor of its own for every statement);
+    'shared' - an attribute of the Database object that holds one cursor (bound to `<connection>.cursor()` by code that
+               does not run per query): every query issued through the object iterates it;
+    None     - cannot tell."""
+
+    def __init__(self, prog, cls, reach):
+        self.prog, self.cls, self.reach = prog, cls, reach
+        self.stores = {}          # attribute of self -> [(function, value)]
+        fam = [c for c in prog.subclasses_of(cls.name)] + list(cls.mro())
+        seen = set()
+        for c in fam:
+            for m in c.methods.values():
+                if id(m) in seen:
+                    continue
+                seen.add(id(m))
+                for t, st, how in stores_to(m.node):
+                    if isinstance(t, ast.Attribute) and norm(t.value) == 'self' and how == 'assign' and getattr(st, 'value', None) is not None:
+                        if const_value(st.value) is not None or not (isinstance(st.value, ast.Constant) and st.value.value is None):
+                            self.stores.setdefault(t.attr, []).append((m, st.value, st))
+
+    def is_connection(self, f, e, depth=0):
+        e = _resolve(f, e)
+        if isinstance(e, ast.Call):
+            return call_name(e).split('.')[-1] == 'connect'
+        if isinstance(e, ast.Attribute) and norm(e.value) == 'self':
+            vs = self.stores.get(e.attr, [])
+            return bool(vs) and depth < 3 and all(self.is_connection(m, v, depth + 1) for m, v, _ in vs)
+        return False
+
+    def kind(self, f, e, depth=0):
+        """(kind, why)"""
+        if depth > 6:
+            return None, 'too deep'
+        if isinstance(e, ast.Call) and call_name(e).split('.')[-1] == 'closing' and len(e.args) == 1:
+            return self.kind(f, e.args[0], depth + 1)
+        if isinstance(e, ast.Call) and isinstance(e.func, ast.Attribute) and e.func.attr == 'cursor' and not e.args:
+            if self.is_connection(f, e.func.value):
+                return 'fresh', f'`{norm(e)}` makes a cursor for this query'
+            return None, f'`{norm(e.func.value)}` is not known to be the connection'
+        if isinstance(e, ast.Name):
+            defs = local_defs(f.node, e.id)
+            if not defs and e.id not in f.params and _enclosing(f) is not None:
+                return self.kind(_enclosing(f), e, depth + 1)      # a free variable of a nested function
+            if not defs and e.id in f.params:
+                sites = _call_sites(self.prog, self.reach, f)
+                if not sites:
+                    return None, f'no call of {f.name} found'
+                got = []
+                for g, c in sites:
+                    a = _argument_of(f, c, e.id)
+                    got.append(self.kind(g, a, depth + 1) if a is not None else (None, f'argument `{e.id}` of `{norm(c)[:40]}`'))
+                for k in ('shared', None):
+                    for kd, why in got:
+                        if kd == k:
+                            return kd, why
+                return 'fresh', got[0][1] + (f' (passed to {f.name} as `{e.id}`)')
+            got = []
+            for d in defs:
+                v = _with_value(d, e.id) if isinstance(d, (ast.With, ast.AsyncWith)) else \
+                    d.value if isinstance(d, (ast.Assign, ast.AnnAssign)) and norm(getattr(d, 'target', None) or d.targets[0]) == e.id else None
+                got.append(self.kind(f, v, depth + 1) if v is not None else (None, f'`{e.id}` is bound by `{norm(d)[:40]}`'))
+            for k in ('shared', None):
+                for kd, why in got:
+                    if kd == k:
+                        return kd, why
+            return ('fresh', f'{e.id} = {got[0][1]}') if got else (None, f'`{e.id}` is not bound here')
+        if isinstance(e, ast.Attribute) and norm(e.value) == 'self':
+            if self.is_connection(f, e):
+                return 'fresh', f'`{norm(e)}` is the connection: its execute() makes a cursor of its own for every statement'
+            vs = self.stores.get(e.attr, [])
+            made = [(m, v, st) for m, v, st in vs if self.kind(m, v, depth + 1)[0] in ('fresh', 'shared')]
+            if vs and len(made) == len(vs):
+                # made by code that does not run per query, or only when there is none yet (made on first use and kept)
+                kept = [(m, v, st) for m, v, st in made if not any(m is r for r in self.reach) or guards_of(st)]
+                if not kept:
+                    return None, (f'`{norm(e)}` is a cursor kept on the Database object and re-bound in {made[0][0].name} on every '
+                                  'call: whether two unfinished queries can meet on it is not decided')
+                return 'shared', (f'`{norm(e)}` is one cursor made in {kept[0][0].name} (`{norm(e)} = {norm(kept[0][1])}`) and kept on the '
+                                  'Database object: every query issued through it runs on that cursor, so a second query replaces '
+                                  'the result set an earlier, not yet exhausted query is still reading (it ends early or continues '
+                                  'with the other statement\'s rows)')
+            return None, f'what `{norm(e)}` holds is not known'
+        return None, f'`{norm(e)[:40]}`'
+
+
+class _NoLocals:
+    """the body of a lambda read inside function f: its names are its parameters, not f's locals"""
+    def __init__(self, f):
+        self.module, self.cls, self.qualname, self.params, self.name = f.module, f.cls, f.qualname, [], f.name
+        self.node = ast.Pass()
+
+
+class _Rows:
+    """what Database.__call__ hands out for a query of class qcls, as an abstract value:
+    ('rows',)   every row of <cursor>.execute(<sql>, <params>), in order;
+    ('conv',)   <result type of the query>.from_row(row) for every such row, in order;
+    ('first0',) next(<rows>)[0];   ('query',) the query;   ('rtype',) its RESULT_TYPE;   ('none',) None;
+    ('fn', FunctionInfo | Lambda, env) a function;   None = not understood"""
+
+    def __init__(self, prog, qcls):
+        self.prog, self.qcls = prog, qcls
+
+    def class_attr(self, name):
+        for c in self.qcls.mro():
+            ca = c.class_assignments()
+            if name in ca and ca[name] is not None:
+                return ca[name]
+            if name in c.methods:
+                return c.methods[name]
+        return None
+
+    def val(self, f, e, env, depth=0):
+        if depth > 10 or e is None:
+            return None
+        if isinstance(e, ast.Constant) and e.value is None:
+            return ('none',)
+        if isinstance(e, ast.Name):
+            if e.id in env and not local_defs(f.node, e.id):
+                return env[e.id]
+            d = single_def_value(f.node, e.id)
+            if d is None and not local_defs(f.node, e.id) and e.id not in f.params and '\x00outer' in env:
+                of, oenv = env['\x00outer']          # a free variable of a nested function: the enclosing call's
+                return self.val(of, e, oenv, depth + 1)
+            return self.val(f, d, env, depth + 1) if d is not None else None
+        if isinstance(e, ast.Attribute):
+            if self.val(f, e.value, env, depth + 1) == ('query',):
+                if e.attr == 'RESULT_TYPE':
+                    return ('rtype',)
+                a = self.class_attr(e.attr)
+                if isinstance(a, ast.Lambda):
+                    return ('fn', a, {})
+                if isinstance(a, ast.AST):
+                    return self.val(f, a, {}, depth + 1)
+                if a is not None:
+                    return ('fn', a, {'self': ('query',)})
+            return None
+        if isinstance(e, ast.Subscript):
+            i = const_value(e.slice)
+            b = e.value
+            # the first row: next(rows), list(rows)[0], rows.fetchone() (a count statement has exactly one row)
+            first = None
+            if isinstance(b, ast.Call) and call_name(b) == 'next' and len(b.args) == 1 and not b.keywords:
+                first = b.args[0]
+            elif isinstance(b, ast.Subscript) and const_value(b.slice) == 0 and isinstance(b.value, ast.Call) \
+                    and call_name(b.value) in ('list', 'tuple'):
+                first = b.value
+            elif isinstance(b, ast.Call) and isinstance(b.func, ast.Attribute) and b.func.attr == 'fetchone' and not b.args:
+                first = b.func.value
+            if i == 0 and isinstance(i, int) and not isinstance(i, bool) and first is not None \
+                    and self.val(f, first, env, depth + 1) == ('rows',):
+                return ('first0',)
+            return None
+        if isinstance(e, (ast.GeneratorExp, ast.ListComp)):
+            if len(e.generators) != 1 or e.generators[0].ifs or not isinstance(e.generators[0].target, ast.Name):
+                return None
+            return self.mapped(f, self.val(f, e.generators[0].iter, env, depth + 1), e.generators[0].target.id, e.elt, env, depth)
+        if isinstance(e, ast.Call):
+            if isinstance(e.func, ast.Attribute) and e.func.attr == 'execute':
+                return ('rows',)
+            if call_name(e) in ('iter', 'list', 'tuple') and len(e.args) == 1 and not e.keywords:
+                return self.val(f, e.args[0], env, depth + 1)
+            fv = self.val(f, e.func, env, depth + 1) if isinstance(e.func, (ast.Attribute, ast.Name)) else None
+            if fv is not None and fv[0] == 'fn':
+                callee, env0 = fv[1], dict(fv[2])
+                if isinstance(callee, ast.Lambda):
+                    ps = [a.arg for a in callee.args.args]
+                    if len(ps) == len(e.args) + 1:      # a function kept as a class attribute is called as a method
+                        env0[ps[0]] = ('query',)
+                        ps = ps[1:]
+                    if len(ps) != len(e.args) or e.keywords:
+                        return None
+                    env0.update({p_: self.val(f, a, env, depth + 1) for p_, a in zip(ps, e.args)})
+                    return self.val(_NoLocals(f), callee.body, env0, depth + 1)
+                ps = [p_ for p_ in callee.params if p_ not in env0]
+                if e.keywords or len(e.args) != len(ps) or any(isinstance(a, ast.Starred) for a in e.args):
+                    return None
+                env0.update({p_: self.val(f, a, env, depth + 1) for p_, a in zip(ps, e.args)})
+                return self.result(callee, env0, depth + 1)
+            callee = resolve_call(self.prog, f, e)
+            if callee is not None and ('.<locals>.' not in callee.qualname or _enclosing(callee) is f):
+                env2 = {'\x00outer': (f, env)} if _enclosing(callee) is f else {}
+                for p_ in callee.params:
+                    if p_ in ('self', 'cls') and callee.cls is not None:
+                        continue
+                    a = _argument_of(callee, e, p_)
+                    if a is not None:
+                        env2[p_] = self.val(f, a, env, depth + 1)
+                return self.result(callee, env2, depth + 1)
+            return None
+        return None
+
+    def mapped(self, f, src, var, elt, env, depth):
+        """the stream of `elt` for every `var` of the stream src"""
+        if src not in (('rows',), ('conv',)):
+            return None
+        if isinstance(elt, ast.Name) and elt.id == var:
+            return src
+        if src == ('rows',) and isinstance(elt, ast.Call) and isinstance(elt.func, ast.Attribute) and elt.func.attr == 'from_row' \
+                and len(elt.args) == 1 and not elt.keywords and isinstance(elt.args[0], ast.Name) and elt.args[0].id == var \
+                and self.val(f, elt.func.value, {k: v for k, v in env.items() if k != var}, depth + 1) == ('rtype',):
+            return ('conv',)
+        return None
+
+    def read_once(self, g, it, env, depth):
+        """the rows the generator function g iterates are read by its loop only: every local that holds them (and the
+        cursor they are executed on) is used once - nothing else takes rows off the stream (`next(rows)` before the
+        loop, `cur.fetchone()`)"""
+        names, todo = set(), [it]
+        while todo and len(names) < 8:
+            x = todo.pop()
+            if isinstance(x, ast.Name):
+                if x.id in names:
+                    continue
+                if self.val(g, x, env, depth + 1) in (('rows',), ('conv',)):
+                    names.add(x.id)
+                    d = single_def_value(g.node, x.id)
+                    if d is not None:
+                        todo.append(d)
+            elif isinstance(x, ast.Call) and isinstance(x.func, ast.Attribute) and x.func.attr == 'execute':
+                if isinstance(x.func.value, ast.Name):
+                    names.add(x.func.value.id)
+            elif isinstance(x, ast.Call) and call_name(x) in ('iter', 'list', 'tuple') and x.args:
+                todo.append(x.args[0])
+        uses = Counter(x.id for x in walk_no_nested(g.node) if isinstance(x, ast.Name) and isinstance(x.ctx, ast.Load) and x.id in names)
+        return all(v == 1 for v in uses.values())
+
+    def truth(self, f, t, env, depth):
+        """a test on what the query's class says (`query.PROCESS_RESULT is not None`): True / False / None"""
+        if isinstance(t, ast.UnaryOp) and isinstance(t.op, ast.Not):
+            r = self.truth(f, t.operand, env, depth)
+            return None if r is None else not r
+        if isinstance(t, ast.Compare) and len(t.ops) == 1 and isinstance(t.ops[0], (ast.Is, ast.IsNot)):
+            a, b = self.val(f, t.left, env, depth + 1), self.val(f, t.comparators[0], env, depth + 1)
+            if a is None or b is None or ('none',) not in (a, b):
+                return None
+            return (a == b) == isinstance(t.ops[0], ast.Is)
+        return None
+
+    def result(self, g, env, depth):
+        """what a call of g hands out"""
+        if depth > 10:
+            return None
+        body = real_body(g.node.body)
+        outs = [x for x in walk_no_nested(g.node) if isinstance(x, (ast.Yield, ast.YieldFrom))]
+        if outs:
+            if len(outs) != 1:
+                return None
+            o = outs[0]
+            if isinstance(o, ast.YieldFrom):
+                return self.val(g, o.value, env, depth + 1) if not guards_of(o) and not [a for a in ancestors(o) if isinstance(a, (ast.For, ast.While))] else None
+            loops = [a for a in ancestors(o) if isinstance(a, (ast.For, ast.While))]
+            if len(loops) != 1 or not isinstance(loops[0], ast.For) or guards_of(o, loops[0]) or guards_of(loops[0]) \
+                    or not isinstance(loops[0].target, ast.Name) or loops[0].orelse or o.value is None:
+                return None
+            if any(isinstance(x, (ast.Break, ast.Continue, ast.Return)) for x in ast.walk(loops[0])):
+                return None
+            elt = o.value
+            if isinstance(elt, ast.Name) and elt.id != loops[0].target.id:
+                d = [x for x in loops[0].body if isinstance(x, ast.Assign) and norm(x.targets[0]) == elt.id]
+                elt = d[0].value if len(d) == 1 and len(local_defs(g.node, elt.id)) == 1 else elt
+            if not self.read_once(g, loops[0].iter, env, depth):
+                return None
+            return self.mapped(g, self.val(g, loops[0].iter, env, depth + 1), loops[0].target.id, elt, env, depth)
+        vals = []
+
+        def run(stmts):
+            """collect what the statements return; True when they always return"""
+            for st in stmts:
+                if isinstance(st, ast.Return):
+                    vals.append(self.val(g, st.value, env, depth + 1))
+                    return True
+                if isinstance(st, ast.If):
+                    t = self.truth(g, st.test, env, depth)
+                    if t is True:
+                        if run(st.body):
+                            return True
+                    elif t is False:
+                        if run(st.orelse):
+                            return True
+                    else:
+                        a, b = run(st.body), run(st.orelse)
+                        if a and b:
+                            return True
+                elif isinstance(st, (ast.For, ast.While, ast.Try, ast.With, ast.Match)) and \
+                        any(isinstance(x, ast.Return) for x in walk_no_nested(st)):
+                    vals.append(None)
+            return False
+        run(body)
+        if not vals or any(v is None for v in vals) or len(set(map(repr, vals))) != 1:
+            return None
+        return vals[0]
+
+
 def rule_cursor(ctx):
     """R8: query results are lazy generators over a database cursor; each query
     must iterate a cursor of its own, created in the call that runs the query —
@@ -3728,71 +4111,75 @@ def rule_cursor(ctx):
     prog = ctx.prog
     dbm = prog.module('missions/database.py')
     fi = dbm.func('Database.__call__')
-    ex = [c for c in calls_in(fi.node) if isinstance(c.func, ast.Attribute) and c.func.attr == 'execute']
-    yr = [c for c in calls_in(fi.node) if call_name(c) == 'self._yield_results']
+    dbcls = prog.cls('missions/database.py', 'Database')
+    reach = [f for f in closure(prog, [fi]) if f.module is dbm]
+    if not any(f is fi for f in reach):
+        reach.append(fi)
+    cur = _Cursors(prog, dbcls, reach)
     n = 0
-    for c in ex + yr:
-        recv = c.func.value if c in ex else (c.args[0] if c.args else None)
-        n += 1
-        ok = False
-        why = 'the cursor is not a fresh local of this call'
-        if isinstance(recv, ast.Name):
-            d = single_def_value(fi.node, recv.id)
-            ok = isinstance(d, ast.Call) and call_name(d) == 'self._conn.cursor'
-            why = f'{recv.id} = self._conn.cursor() created for this query' if ok else why
-        elif recv is not None:
-            why = f'`{norm(recv)}` lives on the Database object and is shared by every query issued through it'
-        ctx.ob('C14-R8', fi, f'query runs on cursor `{norm(recv) if recv is not None else "?"}`', ok, why, line=c.lineno)
-    ctx.floor('C14-R8', n, 2, 'cursor uses in Database.__call__')
-    r = [st for st in walk_no_nested(fi.node) if isinstance(st, ast.Assign) and isinstance(st.targets[0], ast.Tuple)
-         and [norm(e) for e in st.targets[0].elts] == ['sql', 'params']]
-    ok = len(r) == 1 and norm(r[0].value) == 'query.to_sql()'
-    ctx.ob('C14-R8', fi, 'SQL and parameters come from one to_sql() call', ok, 'sql, params = query.to_sql()' if ok else
-           'SQL text and parameters are not taken from the same to_sql() call', nontrivial=False)
-    yf = dbm.func('Database._yield_results')
-    ok = _yields_converted_rows(prog, fi, yf)
-    ctx.ob('C14-R8', yf, 'every row is converted by the query\'s own result type', ok, 'result_type.from_row(row) for each row of cur.execute(sql, params)' if ok else 'row conversion changed', nontrivial=False)
+    sites = []
+    for f in reach:
+        for c in calls_in(f.node):
+            if isinstance(c.func, ast.Attribute) and c.func.attr in ('execute', 'executemany'):
+                sites.append((f, c))
+                n += 1
+                kd, why = cur.kind(f, c.func.value)
+                if kd is None:
+                    ctx.undecided('C14-R8', f, norm(c)[:80], f'cannot tell where the cursor the query runs on comes from: {why}')
+                ctx.ob('C14-R8', f, f'query runs on cursor `{norm(c.func.value)}`', kd == 'fresh', why, line=c.lineno)
+    ctx.floor('C14-R8', n, 1, 'statements executed in the code reachable from Database.__call__')
+    # SQL and parameters: the two results of one to_sql() call of the query
+    qp = [p for p in fi.params if p not in ('self', 'cls')]
 
-
-def _yields_converted_rows(prog, caller, yf) -> bool:
-    """what _yield_results yields is <result type>.from_row(row) for every row of <cursor>.execute(<sql>, <params>), all
-    four being its own parameters - as a for loop (with or without locals in between), `yield from` a generator / list
-    comprehension, or a returned generator expression"""
-    ps = [p for p in yf.params if p not in ('self', 'cls')]
-    if len(ps) != 4:
-        return False
-    cur, sql, par, rt = ps
-
-    def res(e):
-        return _resolve(yf, e)
-
-    def is_exec(e):
-        e = res(e)
-        return isinstance(e, ast.Call) and isinstance(e.func, ast.Attribute) and e.func.attr == 'execute' \
-            and norm(res(e.func.value)) == cur and [norm(res(a)) for a in e.args] == [sql, par] and not e.keywords
-
-    def is_conv(e, rowvar):
-        e = res(e)
-        return isinstance(e, ast.Call) and isinstance(e.func, ast.Attribute) and e.func.attr == 'from_row' \
-            and norm(res(e.func.value)) == rt and len(e.args) == 1 and not e.keywords and norm(res(e.args[0])) == rowvar
-
-    def is_comp(e):
-        e = res(e)
-        return isinstance(e, (ast.GeneratorExp, ast.ListComp)) and len(e.generators) == 1 and not e.generators[0].ifs \
-            and isinstance(e.generators[0].target, ast.Name) and is_exec(e.generators[0].iter) \
-            and is_conv(e.elt, e.generators[0].target.id)
-    outs = [x for x in walk_no_nested(yf.node) if isinstance(x, (ast.Yield, ast.YieldFrom, ast.Return)) and x.value is not None]
-    if len(outs) != 1:
-        return False
-    o = outs[0]
-    if isinstance(o, (ast.YieldFrom, ast.Return)):
-        return is_comp(o.value)
-    loops = [a for a in ancestors(o) if isinstance(a, ast.For)]
-    if len(loops) != 1 or guards_of(o, loops[0]) or not isinstance(loops[0].target, ast.Name) or loops[0].orelse:
-        return False
-    if any(isinstance(x, (ast.Break, ast.Continue)) for x in ast.walk(loops[0])):
-        return False
-    return is_exec(loops[0].iter) and is_conv(o.value, loops[0].target.id)
+    def origin(f, e, depth=0):
+        if depth > 6 or e is None:
+            return None
+        if isinstance(e, ast.Name):
+            if f is fi and qp and e.id == qp[0] and not local_defs(f.node, e.id):
+                return ('query',)
+            if not local_defs(f.node, e.id) and e.id not in f.params and _enclosing(f) is not None:
+                return origin(_enclosing(f), e, depth + 1)
+            if not local_defs(f.node, e.id) and e.id in f.params:
+                got = {origin(g, _argument_of(f, c, e.id), depth + 1) for g, c in _call_sites(prog, reach, f)}
+                return got.pop() if len(got) == 1 else None
+            tc = tuple_def_component(f.node, e.id)
+            if tc is not None:
+                o = origin(f, tc[0], depth + 1)
+                return ('to_sql', o[1], tc[1]) if o is not None and o[0] == 'to_sql' and o[2] is None else None
+            return origin(f, single_def_value(f.node, e.id), depth + 1)
+        if isinstance(e, ast.Subscript) and isinstance(const_value(e.slice), int):
+            o = origin(f, e.value, depth + 1)
+            return ('to_sql', o[1], const_value(e.slice)) if o is not None and o[0] == 'to_sql' and o[2] is None else None
+        if isinstance(e, ast.Call) and isinstance(e.func, ast.Attribute) and e.func.attr == 'to_sql' and not e.args and not e.keywords \
+                and origin(f, e.func.value, depth + 1) == ('query',):
+            return ('to_sql', (e.lineno, e.col_offset), None)
+        return None
+    for f, c in sites:
+        if len(c.args) == 1 and isinstance(c.args[0], ast.Starred):
+            o = origin(f, c.args[0].value)
+            got = [o and o[:2] + (0,), o and o[:2] + (1,)] if o is not None and o[2] is None else [None, None]
+        else:
+            got = [origin(f, a) for a in c.args[:2]] + [None] * (2 - len(c.args[:2]))
+        ok = got[0] is not None and got[1] is not None and got[0][0] == got[1][0] == 'to_sql' and got[0][1] == got[1][1] \
+            and (got[0][2], got[1][2]) == (0, 1) and not c.keywords and len(c.args) <= 2
+        ctx.ob('C14-R8', f, 'SQL and parameters come from one to_sql() call', ok, 'sql, params = query.to_sql()' if ok else
+               f'SQL text and parameters of `{norm(c)[:60]}` are not the two results of one to_sql() call of the query', line=c.lineno,
+               nontrivial=False)
+    # what the caller gets: every row, converted by the query's own result type (a single number for a count)
+    classes = [c for c in prog.subclasses_of('QueryBase') if c.name != 'QueryBase' and c.find_method('to_sql') is not None]
+    ctx.floor('C14-R8/classes', len(classes), 3, 'query classes')
+    for qc in classes:
+        ev = _Rows(prog, qc)
+        got = ev.result(fi, {qp[0]: ('query',)} if qp else {}, 0)
+        rt = ev.class_attr('RESULT_TYPE')
+        # (a query whose result type is a plain number - the count - hands out that number, not a sequence of records)
+        want = ('first0',) if isinstance(rt, ast.Name) and rt.id in ('int', 'float', 'bool', 'str') else ('conv',)
+        if got is None:
+            ctx.undecided('C14-R8', fi, f'result of a {qc.name}', 'cannot follow the rows from <cursor>.execute(sql, params) to what Database.__call__ returns')
+        what = {('conv',): '<result type>.from_row(row) for every row of <cursor>.execute(sql, params), in order',
+                ('first0',): 'the only column of the first row', ('rows',): 'the raw rows, not converted'}.get(got, str(got))
+        ctx.ob('C14-R8', fi, f'{qc.name}: every row is converted by the query\'s own result type', got == want,
+               what if got == want else f'a {qc.name} hands out {what}', nontrivial=False)
 
 
 # ---------------------------------------------------------------- R7 (bounds) -----
